@@ -114,6 +114,8 @@ def stressors(rng):
     out.append(("macro-backslash", "#define P \"C:\\dir\\1\"\n#define F() 42\n#define G(a,b) a\\b\nprogram p\n print *, P, F(), G(1,2)\nend program p\n"))
     out.append(("macro-self", "#define X X\n#define A B\n#define B A\n#if X\n#endif\n#if A\n#endif\nprogram p\n i = X + A\nend program p\n"))
     out.append(("macro-redefine", "#define X 1\nprogram p\n a = X\n#undef X\n#define X(a) a+1\n b = X(2)\n#undef X\n#define X 7\n c = X\n#define F(a) a\n d = F(1)\n#undef F\n#define F 2\n e = F\nend program p\n"))
+    out.append(("macro-chain-bomb", "".join(f"#define LVL{i} (LVL{i + 1} + LVL{i + 1} + LVL{i + 1} + LVL{i + 1})\n" for i in range(16)) + "#define LVL16 1\n#if LVL0 > 0\ninteger :: i\n#elif LVL1 == LVL2\n#endif\nprogram p\n i = LVL0\nend program p\n"))
+    out.append(("macro-fan-bomb", "#define A0 1\n" + "".join(f"#define A{i} A{i - 1} A{i - 1} A{i - 1}\n" for i in range(1, 14)) + "#if defined(A13) && A13\n#endif\nprogram p\n i = A13\nend program p\n"))
     out.append(("macro-regex", "#define R(a) [a]*+?{a}^$|.\nprogram p\n i = R(1)\nend program p\n"))
     out.append(("self-include", "#include \"@SELF@\"\n#include \"@SELF@\"\nsubroutine si()\n  include '@SELF@'\nend subroutine si\n"))
     out.append(("procedure-outside", "procedure(foo) :: bar\nprocedure :: baz\n"))
